@@ -15,6 +15,7 @@ RULE = (
     "supported parameters 0,1,2,3,4,5,7,30-37,39,40-47,49 and the empty list; oracle: independent SGR interpreter. "
     "Non-trivial: >=2 differently formatted runs or a newline in the text (a); >=1 combined parameter list and a reset "
     "that is not last (b)."
+    ' Round-trip values are also derived from observed parents (caches filled first) and come in large sizes; SGR parameter lists go up to 40 parameters, grammar strings up to 70 tokens.'
 )
 ASSUMPTIONS = [
     "ANSI terminal = vf/sgr.py (ECMA-48/xterm SGR semantics for the supported parameters)",
